@@ -279,6 +279,8 @@ pub struct World {
     pub diverge_seed: Option<u64>,
     /// message IDs by token as reported by the client side (last_id after the call started)
     pub ids_by_token: BTreeMap<String, i32>,
+    /// message IDs by token as seen by the server
+    pub srv_ids_by_token: BTreeMap<String, i32>,
     /// abstract-state fingerprints visited (for evidence)
     pub abs_states: std::collections::BTreeSet<u64>,
     pub record_writes: bool,
@@ -329,6 +331,7 @@ impl World {
             yield_ok: false,
             diverge_seed: None,
             ids_by_token: BTreeMap::new(),
+            srv_ids_by_token: BTreeMap::new(),
             abs_states: Default::default(),
             record_writes: false,
             observer: None,
